@@ -43,19 +43,20 @@ Section StepsB10.
     - intros t' r. unfold fn. destruct (Nat.eqb_spec t' t) as [->|]; [rewrite E1, E2|]; apply R6.
   Qed.
 
-  Lemma JW_setv_mc g a ds rt t v :
+  Lemma JW_setv_mc g a ds rt tr t v :
     vb_pend v = vb_pend (bvs a t) -> vb_freed v = vb_freed (bvs a t) -> vb_new v = vb_new (bvs a t) -> vb_own v = vb_own (bvs a t) ->
+    vb_arr v = vb_arr (bvs a t) -> vb_mine v = vb_mine (bvs a t) -> vb_s0 v = vb_s0 (bvs a t) ->
     (forall r, vb_move v = Some (r, None) -> vb_cur v = None -> moved a r = rw a r) ->
-    JW g a ds rt -> JW g (setv a t v) ds rt.
+    JW g a ds rt tr -> JW g (setv a t v) ds rt tr.
   Proof.
-    intros E1 E2 E5 E6 Hjm [J1 J2 J3 J4 J5 J6 J7]. constructor; cbn [setv bvs wh].
+    intros E1 E2 E5 E6 E7 E8 E9 Hjm [J1 J2 J3 J4 J5 J6 J7 J8 J9]. constructor; cbn [setv bvs wh].
     - intros r Hr. change (ec g (setv a t v) r) with (ec g a r). apply J1; auto.
     - intros t' p. unfold fn. destruct (Nat.eqb_spec t' t) as [->|]; [rewrite E1, E2|]; apply J2.
     - intros t'. unfold fn. destruct (Nat.eqb_spec t' t) as [->|]; [rewrite E2|]; apply J3.
     - exact J4.
     - exact J5.
     - intros t' r. cbn [setv bvs moved rw]. unfold fn. destruct (Nat.eqb_spec t' t) as [->|]; [apply Hjm|apply J6].
-    - intros Hoob. destruct (J7 Hoob) as [C1 C2 C3 C4 C5 C6]. constructor; cbn [setv bvs wh tl rch].
+    - intros Hoob. destruct (J7 Hoob) as [C1 C2 C3 C4 C5 C6 C7]. constructor; cbn [setv bvs wh tl rch].
       + exact C1.
       + intros p r H. change (ec g (setv a t v) r) with (ec g a r). now apply C2.
       + intros p t' H. destruct (C3 p t' H) as (X1 & X2). unfold fn. destruct (Nat.eqb_spec t' t) as [->|]; [|auto].
@@ -64,16 +65,20 @@ Section StepsB10.
       + intros r Hr. destruct (C5 r Hr) as [X|(t' & nx & X)]; [now left|right; exists t', nx].
         unfold fn. destruct (Nat.eqb_spec t' t) as [->|]; [rewrite E5|]; auto.
       + intros t' r nx. unfold fn. destruct (Nat.eqb_spec t' t) as [->|]; [rewrite E5|]; apply C6.
+      + intros t' r. unfold fn. destruct (Nat.eqb_spec t' t) as [->|]; [rewrite E7, E6|]; apply C7.
+    - exact J8.
+    - apply (JH_frame a _ tr tr); auto. intros t'. cbn [bvs setv]. unfold fn. destruct (Nat.eqb_spec t' t) as [->|]; auto; try solve [unfold HV; rewrite E1, E2, E6, E8, E9; repeat split; auto].
   Qed.
 
   Lemma JB_setv_mc g a tr t v :
     vb_own v = vb_own (bvs a t) -> vb_node v = vb_node (bvs a t) -> vb_new v = vb_new (bvs a t) -> vb_blk v = vb_blk (bvs a t) ->
     vb_limbo v = vb_limbo (bvs a t) -> vb_pend v = vb_pend (bvs a t) -> vb_freed v = vb_freed (bvs a t) ->
-    vb_full v = vb_full (bvs a t) -> vb_dead v = vb_dead (bvs a t) ->
+    vb_full v = vb_full (bvs a t) -> vb_dead v = vb_dead (bvs a t) -> vb_arr v = vb_arr (bvs a t) ->
+    vb_mine v = vb_mine (bvs a t) -> vb_s0 v = vb_s0 (bvs a t) ->
     JB c g a tr -> (JR c g a -> JR c g (setv a t v)) ->
     (forall r, vb_move v = Some (r, None) -> vb_cur v = None -> moved a r = rw a r) -> JB c g (setv a t v) tr.
   Proof.
-    intros E1 E2 E3 E4 E5 E6 E7 E8 E9 [O1 K1 R1 W1] H Hjm. constructor; auto.
+    intros E1 E2 E3 E4 E5 E6 E7 E8 E9 E10 E11 E12 [O1 K1 R1 W1] H Hjm. constructor; auto.
     - apply JO_setv; auto. - apply JK_setv; auto. - apply JW_setv_mc; auto.
   Qed.
 
@@ -191,10 +196,11 @@ Section StepsB10.
 
   Lemma G_take g a tr t src ob b i n :
     vb_move (bvs a t) = Some (src, ob) -> vb_cur (bvs a t) = Some (b, i, S n) -> vb_pend (bvs a t) = None -> vb_dead (bvs a t) = None ->
+    vb_s0 (bvs a t) = None -> vb_mine (bvs a t) <> Some src ->
     JB c g a tr -> JB c g (aux_take a t src b i n (nth i (rb_cells (grb g b)) 0)) tr.
   Proof.
-    intros Hm Hc Hp Hd J. set (p := nth i (rb_cells (grb g b)) 0).
-    pose proof J as [O1 K1 R0 W0]. pose proof R0 as [R1 R2 R3 R4 R5 R6]. pose proof W0 as [W1 W2 W3 W4 W5 W6 W7]. pose proof O1 as [_ _ _ _ O5].
+    intros Hm Hc Hp Hd Hs0 Hmi J. set (p := nth i (rb_cells (grb g b)) 0).
+    pose proof J as [O1 K1 R0 W0]. pose proof R0 as [R1 R2 R3 R4 R5 R6]. pose proof W0 as [W1 W2 W3 W4 W5 W6 W7 W8 W9]. pose proof O1 as [_ _ _ _ O5].
     destruct (R3 t src ob Hm) as (Hs & _).
     destruct (R4 t b i (S n) Hc) as (r0 & ob0 & j & E0 & Ej & Emv & Hle & Hw & Hlim). rewrite Hm in E0. inversion E0; subst r0 ob0. clear E0.
     assert (Hne : rch a src <> []) by (intros E; rewrite E in Ej; destruct j; discriminate).
@@ -251,7 +257,7 @@ Section StepsB10.
       + intros t' r. cbn [aux_take bvs moved rw]. intros Hm' Hc'.
         destruct (Nat.eq_dec t' t) as [->|Nt]; [rewrite fn_same in Hc'; cbn in Hc'; discriminate|]. rewrite fn_other in Hm', Hc' by exact Nt.
         assert (N : r <> src) by (eapply Hexcl; eauto). rewrite fn_other by exact N. apply (W6 t' r); auto.
-      + intros Hoob. destruct (W7 Hoob) as [C1 C2 C3 C4 C5 C6]. constructor; cbn [aux_take bvs wh tl rch].
+      + intros Hoob. destruct (W7 Hoob) as [C1 C2 C3 C4 C5 C6 C7]. constructor; cbn [aux_take bvs wh tl rch].
         * intros q Hq. destruct (Nat.eq_dec q p) as [->|Nq]; [rewrite fn_same; discriminate|]. rewrite fn_other by exact Nq. now apply C1.
         * intros q r. destruct (Nat.eq_dec q p) as [->|Nq]; [rewrite fn_same; discriminate|]. rewrite fn_other by exact Nq.
           intros H. destruct (C2 q r H) as (X1 & X2). split; auto. destruct (Nat.eq_dec r src) as [->|N].
@@ -268,5 +274,170 @@ Section StepsB10.
         * intros r Hr. destruct (C5 r Hr) as [X|(t' & nx & X)]; [now left|right; exists t', nx].
           unfold fn. destruct (Nat.eqb_spec t' t) as [->|]; cbn; auto.
         * intros t' r nx H. apply (C6 t' r nx). revert H. unfold fn. destruct (Nat.eqb_spec t' t) as [->|]; cbn; auto.
+        * intros t' r' H. assert (H' : vb_arr (bvs a t') = Some r') by (revert H; unfold fn; destruct (Nat.eqb_spec t' t) as [->|]; cbn; auto).
+          destruct (C7 t' r' H') as (X1 & X2). split; [unfold fn; destruct (Nat.eqb_spec t' t) as [->|]; cbn; auto|exact X2].
+      + exact W8.
+      + destruct W9 as [H1 H2 H3]. constructor; cbn [aux_take bvs wh].
+        * intros t' r' E. assert (E' : vb_mine (bvs a t') = Some r') by (revert E; unfold fn; destruct (Nat.eqb_spec t' t) as [->|]; cbn; auto).
+          destruct (H1 t' r' E') as (X1 & X2 & X3). split; [unfold fn; destruct (Nat.eqb_spec t' t) as [->|]; cbn; auto|]. split; auto.
+          intros q Hq. destruct (Nat.eq_dec q p) as [->|Nq]; [|rewrite fn_other by exact Nq; auto].
+          exfalso. destruct (X3 p Hq) as [Y|[Y|Y]]; try congruence. rewrite Hwp in Y. inversion Y; subst r'.
+          assert (t = t') by (eapply (JO_excl g a t t' src); eauto). subst t'. contradiction.
+        * intros t' r' E. specialize (H2 t' r' E). revert H2. unfold fn. destruct (Nat.eqb_spec t' t) as [->|]; cbn; auto.
+        * intros t' r'. unfold fn. destruct (Nat.eqb_spec t' t) as [->|]; cbn; [|apply H3]. intros E. rewrite Hs0 in E. discriminate.
+  Qed.
+
+  (** ** ghost steps on [vb_arr]: the thread notes that the record it is attached to has a retired array / forgets it *)
+  Lemma JW_setv_arr g a ds rt tr t v :
+    vb_pend v = vb_pend (bvs a t) -> vb_freed v = vb_freed (bvs a t) -> vb_new v = vb_new (bvs a t) -> vb_own v = vb_own (bvs a t) ->
+    vb_move v = vb_move (bvs a t) -> vb_cur v = vb_cur (bvs a t) ->
+    (forall r, vb_arr v = Some r -> vb_arr (bvs a t) = Some r \/ (In r (vb_own v) /\ rch a r <> [])) ->
+    vb_mine v = vb_mine (bvs a t) -> vb_s0 v = vb_s0 (bvs a t) ->
+    JW g a ds rt tr -> JW g (setv a t v) ds rt tr.
+  Proof.
+    intros E1 E2 E5 E6 E3 E4 E7 E8 E9 [J1 J2 J3 J4 J5 J6 J7 J8 J9]. constructor; cbn [setv bvs wh].
+    - intros r Hr. change (ec g (setv a t v) r) with (ec g a r). apply J1; auto.
+    - intros t' p. unfold fn. destruct (Nat.eqb_spec t' t) as [->|]; [rewrite E1, E2|]; apply J2.
+    - intros t'. unfold fn. destruct (Nat.eqb_spec t' t) as [->|]; [rewrite E2|]; apply J3.
+    - exact J4.
+    - exact J5.
+    - intros t' r. cbn [setv bvs moved rw]. unfold fn. destruct (Nat.eqb_spec t' t) as [->|]; [rewrite E3, E4|]; apply J6.
+    - intros Hoob. destruct (J7 Hoob) as [C1 C2 C3 C4 C5 C6 C7]. constructor; cbn [setv bvs wh tl rch].
+      + exact C1.
+      + intros p r H. change (ec g (setv a t v) r) with (ec g a r). now apply C2.
+      + intros p t' H. destruct (C3 p t' H) as (X1 & X2). unfold fn. destruct (Nat.eqb_spec t' t) as [->|]; [|auto].
+        rewrite E1, E2, E6. auto.
+      + exact C4.
+      + intros r Hr. destruct (C5 r Hr) as [X|(t' & nx & X)]; [now left|right; exists t', nx].
+        unfold fn. destruct (Nat.eqb_spec t' t) as [->|]; [rewrite E5|]; auto.
+      + intros t' r nx. unfold fn. destruct (Nat.eqb_spec t' t) as [->|]; [rewrite E5|]; apply C6.
+      + intros t' r. unfold fn. destruct (Nat.eqb_spec t' t) as [->|]; [|apply C7].
+        intros H. destruct (E7 r H) as [H'|H']; [|exact H']. rewrite E6. apply C7. exact H'.
+    - exact J8.
+    - apply (JH_frame a _ tr tr); auto. intros t'. cbn [bvs setv]. unfold fn. destruct (Nat.eqb_spec t' t) as [->|]; auto; try solve [unfold HV; rewrite E1, E2, E6, E8, E9; repeat split; auto].
+  Qed.
+
+  Lemma S_setarr g a tr t x :
+    (forall r, x = Some r -> In r (vb_own (bvs a t)) /\ rch a r <> []) ->
+    JB c g a tr -> JB c g (setv a t (set_arr (bvs a t) x)) tr.
+  Proof.
+    intros Hx [O1 K1 R1 W1]. constructor.
+    - apply JO_setv; auto.
+    - apply JK_setv; auto.
+    - apply JR_setv; auto.
+    - apply JW_setv_arr; auto.
+  Qed.
+
+  (** a record that is owned, not being torn down and has list_head_ != nullptr has an array *)
+  Lemma arr_of_head g a tr t r : JB c g a tr -> In r (vb_own (bvs a t)) -> vb_dead (bvs a t) <> Some r ->
+    r_head (grec g r) <> None -> rch a r <> [].
+  Proof.
+    intros J Hr Hd Hh E. destruct (JB_rec1 c g a tr t r J Hr Hd E) as (X & _). contradiction.
+  Qed.
+
+  (** ** ghost steps on the history fields [vb_mine], [vb_s0]: an event of thread t together with a change of the two
+         fields of its view; the history clause of the result is proved by the caller *)
+  Lemma S_evH g a tr t e m s :
+    disposed_ev e = [] -> retired_ev e = [] -> freeh (hstep (hist tr) (t, e)) FRt = freeh (hist tr) FRt ->
+    JH (setv a t (set_s0 (set_mine (bvs a t) m) s)) (tr ++ Conc.tag t [e]) ->
+    JB c g a tr -> JB c g (setv a t (set_s0 (set_mine (bvs a t) m) s)) (tr ++ Conc.tag t [e]).
+  Proof.
+    intros E1 E2 E3 H [O1 K1 R1 W1]. constructor.
+    - apply JO_setv; auto.
+    - change (Conc.tag t [e]) with [(t, e)]. rewrite hist_snoc, E3. apply JK_setv; auto.
+    - apply JR_setv; auto.
+    - rewrite disposed_tr_app. change (disposed_tr (Conc.tag t [e])) with (disposed_ev e ++ []). rewrite E1, app_nil_r.
+      rewrite retired_tr_app. change (retired_tr (Conc.tag t [e])) with (retired_ev e ++ []). rewrite E2, !app_nil_r.
+      destruct W1 as [J1 J2 J3 J4 J5 J6 J7 J8 J9]. constructor; cbn [setv bvs wh]; auto.
+      + intros t' p. unfold fn. destruct (Nat.eqb_spec t' t) as [->|]; cbn; apply J2.
+      + intros t'. unfold fn. destruct (Nat.eqb_spec t' t) as [->|]; cbn; apply J3.
+      + intros t' r. cbn [setv bvs moved rw]. unfold fn. destruct (Nat.eqb_spec t' t) as [->|]; cbn; apply J6.
+      + intros Hoob. destruct (J7 Hoob) as [C1 C2 C3 C4 C5 C6 C7]. constructor; cbn [setv bvs wh tl rch]; auto.
+        * intros p t' Hp. destruct (C3 p t' Hp) as (X1 & X2). unfold fn. destruct (Nat.eqb_spec t' t) as [->|]; cbn; auto.
+        * intros r Hr. destruct (C5 r Hr) as [X|(t' & nx & X)]; [now left|right; exists t', nx].
+          unfold fn. destruct (Nat.eqb_spec t' t) as [->|]; cbn; auto.
+        * intros t' r nx. unfold fn. destruct (Nat.eqb_spec t' t) as [->|]; cbn; apply C6.
+        * intros t' r. unfold fn. destruct (Nat.eqb_spec t' t) as [->|]; cbn; apply C7.
+  Qed.
+
+  (** the "_att r" event: from here on the thread counts what it retires *)
+  Lemma S_att g a tr t r :
+    In r (vb_own (bvs a t)) -> vb_s0 (bvs a t) = None ->
+    JB c g a tr -> JB c g (setv a t (set_s0 (set_mine (bvs a t) (Some r)) None)) (tr ++ Conc.tag t [ev_att r]).
+  Proof.
+    intros Hr Hs0 J. apply S_evH; auto; try solve [unfold disposed_ev; now rewrite classify_att]; try solve [rewrite hstep_att; reflexivity].
+    destruct J as [_ _ _ [_ _ _ _ _ _ _ _ [H1 H2 H3]]]. change (Conc.tag t [ev_att r]) with [(t, ev_att r)].
+      constructor; cbn [setv bvs wh].
+      + intros t' r'. destruct (Nat.eq_dec t' t) as [->|Nt].
+        * rewrite fn_same. cbn. intros E. inversion E; subst r'. rewrite DhpConsSTrace.latt_snoc, DhpConsSTrace.mine_snoc, classify_att.
+          split; auto. split; auto. intros p [].
+        * rewrite fn_other by exact Nt. rewrite DhpConsSTrace.latt_snoc_other, DhpConsSTrace.mine_snoc_other by auto. apply H1.
+      + intros t' r'. destruct (Nat.eq_dec t' t) as [->|Nt]; [rewrite DhpConsSTrace.lsb_snoc, classify_att; discriminate|].
+        rewrite DhpConsSTrace.lsb_snoc_other, fn_other by auto. apply H2.
+      + intros t' r'. destruct (Nat.eq_dec t' t) as [->|Nt]; [rewrite fn_same; cbn; discriminate|]. rewrite fn_other by auto. apply H3.
+  Qed.
+
+  (** the "_scanb r" event *)
+  Lemma S_scanb g a tr t r :
+    vb_pend (bvs a t) = None -> vb_freed (bvs a t) = [] -> vb_mine (bvs a t) = Some r ->
+    JB c g a tr -> JB c g (setv a t (set_s0 (set_mine (bvs a t) (Some r)) (Some r))) (tr ++ Conc.tag t [ev_scanb r]).
+  Proof.
+    intros Hp Hf Hm J. apply S_evH; auto; try solve [unfold disposed_ev; now rewrite classify_scanb]; try solve [rewrite hstep_scanb; reflexivity].
+    destruct J as [_ _ _ [_ _ _ _ _ _ _ _ [H1 H2 H3]]]. change (Conc.tag t [ev_scanb r]) with [(t, ev_scanb r)].
+      constructor; cbn [setv bvs wh].
+      + intros t' r'. destruct (Nat.eq_dec t' t) as [->|Nt].
+        * rewrite fn_same. cbn. intros E. inversion E; subst r'. rewrite DhpConsSTrace.latt_snoc, DhpConsSTrace.mine_snoc, classify_scanb.
+          destruct (H1 t r Hm) as (X1 & X2 & X3). split; auto.
+        * rewrite fn_other by exact Nt. rewrite DhpConsSTrace.latt_snoc_other, DhpConsSTrace.mine_snoc_other by auto. apply H1.
+      + intros t' r'. destruct (Nat.eq_dec t' t) as [->|Nt]; [rewrite DhpConsSTrace.lsb_snoc, classify_scanb, fn_same; cbn; auto|].
+        rewrite DhpConsSTrace.lsb_snoc_other, fn_other by auto. apply H2.
+      + intros t' r'. destruct (Nat.eq_dec t' t) as [->|Nt]; [rewrite fn_same; cbn; intros E; inversion E; subst; auto|]. rewrite fn_other by auto. apply H3.
+  Qed.
+
+  (** the first access after "_scanb r" *)
+  Lemma S_s0clr g a tr t e m :
+    classify e = HOther -> retired_ev e = [] -> (forall r, m = Some r -> vb_mine (bvs a t) = Some r) ->
+    JB c g a tr -> JB c g (setv a t (set_s0 (set_mine (bvs a t) m) None)) (tr ++ Conc.tag t [e]).
+  Proof.
+    intros Ec Er Hm J. apply S_evH; auto; try solve [unfold disposed_ev; now rewrite Ec]; try solve [rewrite hstep_other by exact Ec; reflexivity].
+    destruct J as [_ _ _ [_ _ _ _ _ _ _ _ [H1 H2 H3]]]. change (Conc.tag t [e]) with [(t, e)].
+      constructor; cbn [setv bvs wh].
+      + intros t' r'. destruct (Nat.eq_dec t' t) as [->|Nt].
+        * rewrite fn_same. cbn. intros E. rewrite DhpConsSTrace.latt_snoc, DhpConsSTrace.mine_snoc, Ec, Er. cbn [app]. apply H1. apply Hm. exact E.
+        * rewrite fn_other by exact Nt. rewrite DhpConsSTrace.latt_snoc_other, DhpConsSTrace.mine_snoc_other by auto. apply H1.
+      + intros t' r'. destruct (Nat.eq_dec t' t) as [->|Nt]; [rewrite DhpConsSTrace.lsb_snoc, Ec; discriminate|].
+        rewrite DhpConsSTrace.lsb_snoc_other, fn_other by auto. apply H2.
+      + intros t' r'. destruct (Nat.eq_dec t' t) as [->|Nt]; [rewrite fn_same; cbn; discriminate|]. rewrite fn_other by auto. apply H3.
+  Qed.
+
+  (** the same without event *)
+  Lemma S_setH g a tr t m s :
+    JH (setv a t (set_s0 (set_mine (bvs a t) m) s)) tr ->
+    JB c g a tr -> JB c g (setv a t (set_s0 (set_mine (bvs a t) m) s)) tr.
+  Proof.
+    intros H [O1 K1 R1 W1]. constructor.
+    - apply JO_setv; auto.
+    - apply JK_setv; auto.
+    - apply JR_setv; auto.
+    - destruct W1 as [J1 J2 J3 J4 J5 J6 J7 J8 J9]. constructor; cbn [setv bvs wh]; auto.
+      + intros t' p. unfold fn. destruct (Nat.eqb_spec t' t) as [->|]; cbn; apply J2.
+      + intros t'. unfold fn. destruct (Nat.eqb_spec t' t) as [->|]; cbn; apply J3.
+      + intros t' r. cbn [setv bvs moved rw]. unfold fn. destruct (Nat.eqb_spec t' t) as [->|]; cbn; apply J6.
+      + intros Hoob. destruct (J7 Hoob) as [C1 C2 C3 C4 C5 C6 C7]. constructor; cbn [setv bvs wh tl rch]; auto.
+        * intros p t' Hp. destruct (C3 p t' Hp) as (X1 & X2). unfold fn. destruct (Nat.eqb_spec t' t) as [->|]; cbn; auto.
+        * intros r Hr. destruct (C5 r Hr) as [X|(t' & nx & X)]; [now left|right; exists t', nx].
+          unfold fn. destruct (Nat.eqb_spec t' t) as [->|]; cbn; auto.
+        * intros t' r nx. unfold fn. destruct (Nat.eqb_spec t' t) as [->|]; cbn; apply C6.
+        * intros t' r. unfold fn. destruct (Nat.eqb_spec t' t) as [->|]; cbn; apply C7.
+  Qed.
+
+  (** the thread gives its record up: it stops counting *)
+  Lemma S_mineclr g a tr t : vb_s0 (bvs a t) = None ->
+    JB c g a tr -> JB c g (setv a t (set_s0 (set_mine (bvs a t) None) None)) tr.
+  Proof.
+    intros Hs0 J. apply S_setH; auto. destruct J as [_ _ _ [_ _ _ _ _ _ _ _ [H1 H2 H3]]]. constructor; cbn [setv bvs wh].
+    - intros t' r'. destruct (Nat.eq_dec t' t) as [->|Nt]; [rewrite fn_same; cbn; discriminate|]. rewrite fn_other by exact Nt. apply H1.
+    - intros t' r' E. specialize (H2 t' r' E). destruct (Nat.eq_dec t' t) as [->|Nt]; [congruence|]. now rewrite fn_other.
+    - intros t' r'. destruct (Nat.eq_dec t' t) as [->|Nt]; [rewrite fn_same; cbn; discriminate|]. rewrite fn_other by auto. apply H3.
   Qed.
 End StepsB10.
